@@ -92,6 +92,9 @@ type Sched struct {
 	// "about to block" and "parked" are different states (a non-blocking partner operation - select with default -
 	// tells them apart: it succeeds only against a parked thread).
 	ArriveYield bool
+	// ReverseOrder: the canonical order among the enabled threads is "the running thread first, then the most recently
+	// created" instead of "then the oldest": under the canonical schedule long-lived service threads then run last.
+	ReverseOrder bool
 	Diverged    string
 	Trace       []Choice
 	Explore     bool // when false: canonical choice everywhere, no recording
@@ -419,6 +422,11 @@ func (s *Sched) Run(main func()) {
 			break
 		}
 		// canonical order: current first, then ascending creation order
+		if s.ReverseOrder {
+			for i, j := 0, len(en)-1; i < j; i, j = i+1, j-1 {
+				en[i], en[j] = en[j], en[i]
+			}
+		}
 		sort.SliceStable(en, func(i, j int) bool { return en[i] == s.cur && en[j] != s.cur })
 		n := len(en)
 		costs := make([]int, 0, n+1)
